@@ -13,7 +13,15 @@ PRIMARIES = ['ed25519-0', 'ecdsa-p256-0', 'ecdsa-p384-0', 'dsa1024-0', 'rsa1024-
 CERTIFIERS = ['ed25519-1', 'ecdsa-p256-1', 'rsa1024-1', 'ed25519-2']
 SUBKEYS = ['cv25519-0', 'ed25519-seedlead0', 'ecdh-p256-0', 'ecdsa-p521-0', 'rsa1024-1', 'cv25519-publead0', 'ecdh-p384-0@9,9']
 UIDS = ['Alice Example (work) <alice@example.org>', 'Ünï Çödé <ü@example.org>', 'No Email', 'Bob (b) <bob@example.org>', '日本 太郎 <taro@example.jp>',
-        'paren (in (name)) <x@y>', 'x']
+        'paren (in (name)) <x@y>', 'x', 'LATIN1:Jörg Müller <joerg@example.de>']
+
+
+def uid_octets(text):
+    """user id octets for a recipe text; the LATIN1: marker denotes a user id that is not valid UTF-8 (only other
+    implementations produce those: the reference encodes it as Latin-1, the API path uses the text as is)"""
+    if text.startswith('LATIN1:'):
+        return text[7:].encode('latin-1')
+    return text.encode('utf-8')
 BASE = 1600000000
 
 
@@ -243,7 +251,7 @@ def build_ref(r, layout=0, secret=False):
         idents = idents[::-1]
     for n, (kind, u) in enumerate(idents):
         if kind == 'uid':
-            data = u['text'].encode('utf-8')
+            data = uid_octets(u['text'])
             comp = ('uid', data)
             m.uids.append(data)
             out += wire.build_packet(13, data, fmt) + trust
